@@ -313,7 +313,7 @@ func main() {
 			directed = append(directed, scenarioWedge(), scenarioLaggards(true), scenarioLaggards(false), scenarioLoneLaggard())
 		} else {
 			directed = append(directed, scenarioCompactionEquivocation(4, true), scenarioCompactionEquivocation(4, false),
-				scenarioCompactionEquivocation(7, true), scenarioCompactionEquivocation(7, false))
+				scenarioCompactionEquivocation(7, true), scenarioCompactionEquivocation(7, false), scenarioCrossRole())
 		}
 		for _, os := range directed {
 			for _, o := range os {
